@@ -45,6 +45,7 @@ int World::addSlot(const NodeFactory& f, const std::string& role, int fill) {
 	s.h->world = this; s.h->index = int(slots.size()); s.h->role = role; s.h->node = s.node.get(); s.h->shape = f.desc;
 	s.h->entered.assign(size_t(f.desc->n), 0);
 	s.h->respectQueue = !plan.wp.allowOverflow;
+	s.node->setSaveFill(uint8_t(0x31 + 0x4D * slots.size()));
 	s.arena.reset(new Arena);
 	s.arena->make(s.node->instanceSize(), s.node->instanceAlign(), fill, mix64(plan.seed, uint64_t(slots.size()) + 77));
 	slots.push_back(std::move(s));
@@ -294,6 +295,11 @@ void World::checkLifecycle(Harness& h, const Ev& e, const void* self) {
 void World::checkAsserts(int i, const Op& op) {
 	(void) op;
 	Slot& s = slots[size_t(i)];
+	if (!asserts.empty() && !wants("C11")) {
+		// hits the policy let pass (not part of any documented finding): the lens judges what the library did next
+		probe("assertion_continued");
+		asserts.clear();
+	}
 	if (!asserts.empty()) {
 		result.tainted = true; s.tainted = true;
 		const AssertHit& a = asserts.front();
@@ -712,8 +718,33 @@ void World::execOp(const Op& op) {
 	}
 }
 
+std::string World::assertTag(const std::string& expr) const {
+	if (expr.find("_core.requests.count() == 0") != std::string::npos) return "substitution_limit_leftover";
+	if (expr.find("applyRequests(control, transitions, count)") != std::string::npos) return "replay_of_history_without_net_effect";
+	if (expr.find("parent.forkId > 0") != std::string::npos || expr.find("parent.forkId != 0") != std::string::npos) return "schedule_root";
+	if (expr.find("tasksFailures .get(stateId)") != std::string::npos || expr.find("tasksSuccesses.get(stateId)") != std::string::npos) return "status_mark_on_inactive_state";
+	const Harness* h = (curNode >= 0 && curNode < int(slots.size())) ? slots[size_t(curNode)].h.get() : nullptr;
+	if (h && expr.find("registry.isActive(HEAD_ID)") != std::string::npos && h->inActivation && h->shape->isOrtho(0)) return "activation_request_ortho_root";
+	return "";
+}
+
+static thread_local World* g_policyWorld = nullptr;
+static bool assertPolicy(const char* expr) {
+	World* w = g_policyWorld;
+	if (!w) return true;
+	// the memory-safety lens stops at the first hit; so does everybody for hits that belong to a documented finding.
+	// Any other assertion is news: under the other lenses the library carries on as a production build would, and the lens judges the outcome.
+	if (w->wants("C11")) return true;
+	if (!w->assertTag(expr).empty()) return true;
+	// bounds assertions stand right in front of an indexed access: carrying on would only turn the hit into a sanitizer abort
+	{ const std::string e(expr); for (const char* pat : {"< WIDTH", "< CAPACITY", "<= CAPACITY", "< STATE_COUNT", "< count", "< _count", "<= _count", "index <", "INVALID", "< REGION_COUNT", "< COMPO", "< ORTHO", "< TASK", "Id <", "prong <"}) if (e.find(pat) != std::string::npos) return true; }
+	++w->assertionsContinued;
+	return w->assertionsContinued > 200;
+}
+
 RunResult World::run() {
 	std::jmp_buf jb;
+	g_policyWorld = this; g_assertPolicy = &assertPolicy;
 	if (setjmp(jb) == 0) {
 		g_assertJump = &jb;
 		runBody();
@@ -723,15 +754,9 @@ RunResult World::run() {
 		for (auto& s : slots) if (s.node && s.node->alive()) s.node->abandon();
 		result.tainted = true;
 		if (!asserts.empty()) {
-			const AssertHit& a = asserts.front();
-			std::string tag;
-			if (a.expr.find("_count < CAPACITY") != std::string::npos) tag = "array_overflow";
-			if (a.expr.find("_core.requests.count() == 0") != std::string::npos) tag = "substitution_limit_leftover";
-			if (a.expr.find("applyRequests(control, transitions, count)") != std::string::npos) tag = "replay_of_history_without_net_effect";
-			if (a.expr.find("parent.forkId > 0") != std::string::npos || a.expr.find("parent.forkId != 0") != std::string::npos) tag = "schedule_root";
-			if (a.expr.find("tasksFailures .get(stateId)") != std::string::npos || a.expr.find("tasksSuccesses.get(stateId)") != std::string::npos) tag = "status_mark_on_inactive_state";
+			const AssertHit& a = asserts.back();
+			const std::string tag = assertTag(a.expr);
 			Harness* h = (curNode >= 0 && curNode < int(slots.size())) ? slots[size_t(curNode)].h.get() : nullptr;
-			if (h && a.expr.find("registry.isActive(HEAD_ID)") != std::string::npos && h->inActivation && h->shape->isOrtho(0)) tag = "activation_request_ortho_root";
 			if (h && wants("C04") && curOpKind != OP_ENTER) {
 				// bounded liveness in rounds holds or fails regardless of what the assertion says about leftovers
 				checked("C04.round_limit");
@@ -742,7 +767,7 @@ RunResult World::run() {
 			violate("C11.assert", (h ? h->role : std::string("?")) + ": library assertion `" + a.expr + "` failed at " + a.file + ":" + std::to_string(a.line) + " during " + opName(curOpKind), curNode, tag);
 		}
 	}
-	g_assertJump = nullptr;
+	g_assertJump = nullptr; g_assertPolicy = nullptr; g_policyWorld = nullptr;
 	uint64_t hsh = 0;
 	for (auto& s : slots) if (s.h) hsh = mix64(hsh, s.h->hash);
 	result.hash = hsh;
